@@ -301,19 +301,19 @@ def sigencode_der(r, s, order):
 # above order/2 see CECKey::Sign()
 # https://github.com/bitcoin/bitcoin/blob/master/src/key.cpp#L214
 def sigencode_strings_canonize(r, s, order):
-    if s > order / 2:
+    if s > order // 2:
         s = order - s
     return sigencode_strings(r, s, order)
 
 
 def sigencode_string_canonize(r, s, order):
-    if s > order / 2:
+    if s > order // 2:
         s = order - s
     return sigencode_string(r, s, order)
 
 
 def sigencode_der_canonize(r, s, order):
-    if s > order / 2:
+    if s > order // 2:
         s = order - s
     return sigencode_der(r, s, order)
 
